@@ -12,7 +12,7 @@ LEVEL_TEXT = ("one struct reachable from the interface is changed (member insert
               "construction: another name or a non-matching name_regexp, an invalid regular expression, a type_kind other than struct, "
               "source_location_not_in naming the header that defines the struct, accessed_through = reference (C has none), a "
               "has_data_member_inserted_* constraint combined with a removal, or an insertion range that excludes the inserted member's "
-              "offset as measured by a compiler probe.  The change must still be reported (bit 4, struct named).  Cases where the "
+              "offset as measured by a compiler probe, or 'inserted at end' while the member lands at or before the old last member.  The change must still be reported (bit 4, struct named).  Cases where the "
               "model says 'may be suppressed' are not judged.")
 LEVEL_NOTE = "only the 'must still be reported' direction is judged; insertion offsets come from the compiler probe, not from this framework's arithmetic"
 ASSUMPTIONS = [LEVEL_NOTE]
@@ -21,7 +21,7 @@ ASSUMPTIONS = [LEVEL_NOTE]
 # pattern reaches the regular expression engine unchanged
 INVALID_RE = ["(", "a(b", "*x", "+", "a|*", "(?", "(()", "^*", "(*)", "x(y"]
 CLASSES = ["wrong-name", "wrong-regexp", "invalid-regexp", "wrong-kind", "location-excluded", "accessed-through-reference",
-           "insertion-constraint-vs-removal", "insertion-outside-range", "insertion-at-wrong-offset"]
+           "insertion-constraint-vs-removal", "insertion-outside-range", "insertion-at-wrong-offset", "insertion-not-at-end"]
 
 
 def plan(tier):
@@ -43,6 +43,8 @@ def case(ctx, i):
         kinds = ["remove-member"]
     elif cls in ("insertion-outside-range", "insertion-at-wrong-offset"):
         kinds = ["insert-member", "append-member"]
+    elif cls == "insertion-not-at-end":
+        kinds = ["insert-member"]
     else:
         kinds = ["insert-member", "append-member", "remove-member", "change-member-type"]
     pr, why = pairs.make_pair(ctx, rng, d, mutate.BREAKING, kinds=kinds, cfg=wl.pick_config(rng, kinds=("so", "so", "exec")))
@@ -84,7 +86,18 @@ def case(ctx, i):
         if off is None:
             return r.skip("inserted-member-is-nested")    # inserted inside an anonymous member: offsets are relative, not judged
         lines.append("  name = %s" % sname)
-        if cls == "insertion-outside-range":
+        if cls == "insertion-not-at-end":
+            # "at the end" = beyond the last data member of the *old* struct; an insertion at or before that offset is not
+            try:
+                la = layout.run_probe(pr.p, os.path.join(d, "a"), pr.cfg["family"], pr.cfg["opt"])
+            except cc.CompileError:
+                return r.skip("probe-failed")
+            last = rec.fields[-1] if rec.fields else None
+            off_last = la.off.get((e.type_name, last.name)) if last is not None and last.name else None
+            if off_last is None or off > off_last:
+                return r.skip("insertion-is-beyond-the-old-last-member")
+            lines.append("  " + rng.choice(["has_data_member_inserted_at = end", "has_data_member_inserted_between = {end, end}"]))
+        elif cls == "insertion-outside-range":
             if off >= 16 and rng.random() < 0.5:
                 lines.append("  has_data_member_inserted_between = {0, %d}" % (off - 8))
             else:
